@@ -47,16 +47,19 @@ func oracle(c Case, o *h.Obs) *h.Fail {
 			o.Class(k)
 		}
 	}
-	for _, k := range []string{"spread_operand_raises", "call_spread_variadic", "script_callback_passed_to_go", "defer_same_statement_different_callees", "deferred_call_assigns_the_returned_list_element", "deferred_call_assigns_the_returned_variable", "body_fails_by_host_panic_and_deferred_call_fails_too", "deferred_argument_is_an_element_assigned_later", "throw_of_empty_or_nil", "deferred_arguments_read_from_slots_stored_later"} {
+	for _, k := range []string{"spread_operand_raises", "call_spread_variadic", "script_callback_passed_to_go", "defer_same_statement_different_callees", "deferred_call_assigns_the_returned_list_element", "deferred_call_assigns_the_returned_variable", "body_fails_by_host_panic_and_deferred_call_fails_too", "deferred_argument_is_an_element_assigned_later", "throw_of_empty_or_nil", "deferred_arguments_read_from_slots_stored_later", "deferred_go_call_gets_the_address_of_a_variable"} {
 		if c.GenFeat[k] > 0 {
 			o.Class("gen_" + k)
 		}
 	}
 	for k, n := range c.GenFeat {
-		if n > 0 && (strings.HasPrefix(k, "defer_args_") || strings.HasPrefix(k, "raising_operand_") || strings.HasPrefix(k, "raiser_") || strings.HasPrefix(k, "runtime_error_") || (strings.HasPrefix(k, "deferred_call_assigns_the_returned_") && k != "deferred_call_assigns_the_returned_list_element" && k != "deferred_call_assigns_the_returned_variable") ||
+		if n > 0 && (strings.HasPrefix(k, "defer_args_") || strings.HasPrefix(k, "defer_addr_") || strings.HasPrefix(k, "raising_operand_") || strings.HasPrefix(k, "raiser_") || strings.HasPrefix(k, "runtime_error_") || (strings.HasPrefix(k, "deferred_call_assigns_the_returned_") && k != "deferred_call_assigns_the_returned_list_element" && k != "deferred_call_assigns_the_returned_variable") ||
 			k == "call_by_name_after_the_failing_operand" || k == "coalesce_after_the_failing_operand" || k == "deferred_assignment_through_a_named_function" || k == "two_deferred_calls_assign_the_returned_slot") {
 			o.Class("gen_" + k)
 		}
+	}
+	if f["deferred_go_call_with_address_argument_run"] > 0 {
+		o.Class("run_deferred_go_call_with_address_argument")
 	}
 	if f["runtime_error_inside_interpreter"] > 0 {
 		o.Class("run_runtime_error_inside_interpreter")
@@ -65,7 +68,11 @@ func oracle(c Case, o *h.Obs) *h.Fail {
 		o.Class("program_ends_with_uncaught_error")
 	}
 	if !v.OK {
-		if class, ok := prog.DeferArgsDiff(v); ok && v.Clause == "trace" {
+		if class, ok := prog.DeferArgsDiff(v); ok && v.Clause == "trace" && strings.HasPrefix(class, prog.ResultTagPrefix) {
+			// the probe that logs the result of an invocation ran where it had to and logged another value than the
+			// one the body returned
+			return h.Failf("C09|deferred-call-altered-the-invocation-result|"+strings.TrimPrefix(class, prog.ResultTagPrefix), "program:\n%s\n%s", v.Src, v.Detail)
+		} else if ok && v.Clause == "trace" {
 			// a deferred call ran where it had to, with other arguments than the ones its defer statement evaluated
 			return h.Failf("C09|deferred-call-arguments-not-as-evaluated-at-the-defer-statement|"+class, "program:\n%s\n%s", v.Src, v.Detail)
 		}
@@ -87,7 +94,7 @@ func TestC09(t *testing.T) {
 		profile.MaxDepth++
 		profile.MaxStmts += 2
 	}
-	c.Rule("constructive generator, profile 'errors': nested try/catch[/finally] with and without catch variable, functions with defer statements in straight code, branches and loops, deferred host probes / script functions / closure literals (which may raise or contain try/defer), throw of strings/numbers/lists, runtime errors (pfail, undefined name, index out of range, and operations that fail inside the interpreter: string repeat overflow, modulo by zero, inverted slice bounds, make of an impossible length, index of a number, close of / send on a closed channel), a failing operand that is not the last one of a list / map / typed literal, argument list, binary operator, return list or multi-assignment with probes, calls by name and ?? after it, a deferred call assigning the list / typed-slice / made-slice element, array-field element or struct field just returned, deferred calls (script callees with a variadic tail, with fixed parameters before it, with 5 and more parameters, Go callees with a variadic / fixed / typed parameter list, by name or as a function literal, with or without a spread list whose name is re-bound later, in straight code, in a loop, in line) whose arguments are read from a list / typed-slice / made-slice element, struct field, array-field element, pointee or map entry that is stored into afterwards (also by a later argument of the same call), return at every point; non-trivial = an error/return leaves an invocation with >=2 pending defers, or a deferred callee raises, or a try runs inside a deferred callee, or an error is caught in a run that also runs defers, or a deferred call that logs the arguments it received runs; distinct by source text")
+	c.Rule("constructive generator, profile 'errors': nested try/catch[/finally] with and without catch variable, functions with defer statements in straight code, branches and loops, deferred host probes / script functions / closure literals (which may raise or contain try/defer), throw of strings/numbers/lists, runtime errors (pfail, undefined name, index out of range, and operations that fail inside the interpreter: string repeat overflow, modulo by zero, inverted slice bounds, make of an impossible length, index of a number, close of / send on a closed channel), a failing operand that is not the last one of a list / map / typed literal, argument list, binary operator, return list or multi-assignment with probes, calls by name and ?? after it, a deferred call assigning the list / typed-slice / made-slice element, array-field element or struct field just returned, deferred calls (script callees with a variadic tail, with fixed parameters before it, with 5 and more parameters, Go callees with a variadic / fixed / typed parameter list, by name or as a function literal, with or without a spread list whose name is re-bound later, in straight code, in a loop, in line) whose arguments are read from a list / typed-slice / made-slice element, struct field, array-field element, pointee or map entry that is stored into afterwards (also by a later argument of the same call) - ints and strings, and slices / maps read from an element of a slice of slices / of maps or from a slice / map field of a Go struct that is ASSIGNED another slice / map afterwards -, deferred calls of a Go function that is handed the address of a variable (defer gset(&x, v)) in functions whose result (constant, the variable, an expression of it, a list, nothing) is logged and in line, return at every point; non-trivial = an error/return leaves an invocation with >=2 pending defers, or a deferred callee raises, or a try runs inside a deferred callee, or an error is caught in a run that also runs defers, or a deferred call that logs the arguments it received runs; distinct by source text")
 	h.Run(c, "errors", c.N(12000, 120000), gen, oracle)
 	c.Rule("interrupted: 1-3 nested script function invocations (arity 0-6) each with 0-3 deferred host probes plus 0-2 top-level defers; the innermost spins in tick() and the context is cancelled inside the k-th tick: every deferred probe must run exactly once, innermost invocation first, LIFO; non-trivial = >= 2 deferred probes")
 	h.Run(c, "interrupted", c.N(1500, 15000), genInt, oracleInt)
